@@ -29,6 +29,16 @@ CLAIMS = {
         "SPEC-generated exchanges and mutations on the real code."),
   note=TB + "encoding_rs (windows-1252, UTF-16LE without BOM handling) mirrored by Gd.cp1252Decode / unitsOf; the stray-0x01 ambiguity of UCS-2 strings is excluded by the SPEC's domain.",
   technique="Lean 4 proof (string codec ∀ lengths/encodings; list induction over datagrams) + exhaustive length-byte sweep and SPEC differential"),
+ "C04": dict(
+  category="proof",
+  text=("Lean 4 theorems, one file per version (families built by sub-agents, merged and re-checked here). GameSpy 1 (C04_gs1_query, C04_gs1_query_vars, "
+        "C04_gs1_unused_exact): the whole query on the SPEC script of any well-formed state — any number of players below 65536, any subset of optional per-player "
+        "fields, any cut into parts with query ids, every writing style — equals the expected response, and unused entries = sent − typed − player fields. GameSpy 2 "
+        "(C04_gs2_query, C04_gs2_table, C04_gs2_vars, C04_gs2_unused_exact): 0-255 players and teams, extra columns, 0-row tables. GameSpy 3 (C04_gs3_*): challenge "
+        "handshake, splitnum packets in any order, player and team field sections, query_vars returns exactly the pairs sent. Tie + oracle: SPEC-generated states "
+        "(0-64 players, 0-8 teams, extra variables, optional fields, 1-7 packets/parts) on the real code."),
+  note=TB + "text is strict UTF-8 up to the first NUL; `to_lowercase().parse::<bool>()` is modelled as ASCII lower-casing (justified in Proto/GsCommon.lean).",
+  technique="Lean 4 proof (decode∘encode per GameSpy version; canonical-map form for the multi-part merge) + SPEC-driven differential"),
  "C07": dict(
   category="proof",
   text=("Lean 4 theorems, one file per format (families built by sub-agents, merged and re-checked here): Just Cause 2: Multiplayer (C07_jc2m: GameSpy 3 carrier, "
